@@ -287,6 +287,27 @@ UNIONS = [
     ("typing.Union[int, str, float]", "u:int|str|float"), ("int | str | float", "u:int|str|float"),
 ]
 
+# "reordered twins": distinct objects that compare (and hash) EQUAL but list their members in another order
+# (Union / Literal equality ignores member order; generic aliases compare their arguments with ==).  A memo cache
+# keyed by == conflates them.  (X source, Y source, extra tags, pair kind used in signatures)
+REORDERED = [
+    # pair kinds are coarse on purpose: one root cause (an == keyed cache) must not give one cell per spelling
+    ("typing.Union[int, str]", "typing.Union[str, int]", ["union"], "union"),
+    ("int | str", "str | int", ["union"], "union"),
+    ("typing.Union[None, int]", "typing.Union[int, None]", ["union"], "union"),
+    ("None | int", "int | None", ["union"], "union"),
+    ("typing.Optional[typing.Union[int, str]]", "typing.Optional[typing.Union[str, int]]", ["union"], "union"),
+    ("typing.Literal[1, 2]", "typing.Literal[2, 1]", ["literal"], "literal"),
+    ("list[typing.Union[int, str]]", "list[typing.Union[str, int]]", [], "generic[union]"),
+    ("typing.List[typing.Union[int, str]]", "typing.List[typing.Union[str, int]]", [], "generic[union]"),
+    ("dict[str, int | None]", "dict[str, None | int]", [], "generic[union]"),
+    ("tuple[typing.Union[int, str], int]", "tuple[typing.Union[str, int], int]", [], "generic[union]"),
+    ("typing.Final[typing.Union[int, str]]", "typing.Final[typing.Union[str, int]]", ["final"], "final-classvar[union]"),
+    ("typing.ClassVar[int | str]", "typing.ClassVar[str | int]", ["classvar"], "final-classvar[union]"),
+]
+# the pairs that are additionally judged through a NewType / alias wrapper (both tiers)
+REORDERED_WRAPPED = ["typing.Union[int, str]", "int | str", "typing.Literal[1, 2]", "list[typing.Union[int, str]]"]
+
 SPECIAL = [
     ("typing.Literal[1, 'a']", ["literal"]), ("typing.Literal[1, None]", ["literal"]), ("typing.Literal[1]", ["literal"]),
     ("typing.Literal['str', None]", ["literal"]), ("typing.Literal[EInt.A]", ["literal"]), ("typing.Literal", ["literal"]),
@@ -339,6 +360,9 @@ WRAP_SUBSET = [
     "re.Pattern[str]",
     "typing.Optional[int]", "int | None", "typing.Union[int, str]", "int | str", "typing.Literal[1, 'a']",
     "typing.Literal[1, None]", "typing.Final[str]", "typing.ClassVar[str]",
+    # Y sides (and missing X sides) of the reordered twins judged through wrappers
+    "typing.Union[str, int]", "str | int", "typing.Literal[1, 2]", "typing.Literal[2, 1]",
+    "list[typing.Union[int, str]]", "list[typing.Union[str, int]]",
 ]
 NO_WRAP = {"Union", "Optional", "Literal"}  # the name-collision classes are judged unwrapped only
 CHAIN_SUBSET = ["int", "str", "dict", "datetime.datetime", "EInt", "DC", "NT", "TD", "list[int]", "typing.Dict[str, int]",
@@ -384,8 +408,32 @@ def module():
     return _mod
 
 
+def _typing_cleanup():
+    # typing caches `X[...]` keyed by ==: `typing.List[Union[str, int]]` evaluated after `typing.List[Union[int, str]]`
+    # would come back with the FIRST member order.  Every catalogue object is created right after a cleanup.
+    for f in getattr(typing, "_cleanups", ()):
+        f()
+
+
 def _ev(src):
+    _typing_cleanup()
     return eval(src, module().__dict__)  # noqa: S307 - fixed source table
+
+
+def ordered_form(x, _d=0):
+    """Structural form of an annotation that keeps the member order (Union / Literal equality does not)."""
+    if _d > 12:
+        return repr(x)
+    if hasattr(x, "__supertype__"):
+        return ("newtype", ordered_form(x.__supertype__, _d + 1))
+    if isinstance(x, typing.TypeAliasType):
+        return ("alias", ordered_form(x.__value__, _d + 1))
+    a = typing.get_args(x)
+    if a:
+        return (repr(typing.get_origin(x)), tuple(ordered_form(y, _d + 1) for y in a))
+    if isinstance(x, (list, tuple)):
+        return tuple(ordered_form(y, _d + 1) for y in x)
+    return repr(x)
 
 
 def _structural_tags(obj, tags):
@@ -474,6 +522,12 @@ def _base_entries():
         add(s, [T_, "union"], group=g)
     for s, tg in SPECIAL:
         add(s, [T_, *tg])
+    have = {e.label for e in out}
+    for sx, sy, tg, _k in REORDERED:
+        for s in (sx, sy):
+            if s not in have:
+                have.add(s)
+                add(s, [T_, "reordered-twin", *tg])
     for s in FUNCTIONS:
         add(s, [T_, "function"], label=f"fn:{s}")
     for s in INSTANCES:
@@ -583,6 +637,24 @@ def catalogue(tier: str = "quick") -> list[Entry]:
             # quick wrappers are a prefix of the thorough ones (same construction order)
             _CACHE[tier] = base + _wrapper_entries(base, tier)
     return _CACHE[tier]
+
+
+def reordered_pairs(tier: str = "quick") -> list[tuple[str, str, str]]:
+    """(label X, label Y, pair kind): distinct catalogue objects that are == but list their members in another
+    order; verified here (the two objects must really differ in order and, unwrapped, compare equal)."""
+    by = by_label(tier)
+    pairs = [(sx, sy, k) for sx, sy, _t, k in REORDERED]
+    for s in REORDERED_WRAPPED:
+        sy = next(y for x, y, _t, _k in REORDERED if x == s)
+        k = next(k for x, _y, _t, k in REORDERED if x == s)
+        for w in ("NewType", "Alias"):
+            pairs.append((f"{w}({s})", f"{w}({sy})", f"{w.lower()}:{k}"))
+    for lx, ly, _k in pairs:
+        x, y = by[lx].obj, by[ly].obj
+        assert x is not y and ordered_form(x) != ordered_form(y), f"reordered twins do not differ in order: {lx} / {ly}"
+        if "wrapper" not in by[lx].tags:
+            assert x == y and hash(x) == hash(y), f"reordered twins are not equal: {lx} / {ly}"
+    return pairs
 
 
 def by_label(tier: str = "quick") -> dict[str, Entry]:
